@@ -23,10 +23,12 @@ tvars == <<l, rej>>
 
 Short == 8     \* up to this length the defining (quadratic) forms are evaluated, beyond it the linear ones
 
-Allowed(sigs, addrs) == IF Len(sigs) <= Short THEN AllowedVerdicts(sigs, addrs) ELSE AllowedFast(sigs, addrs)
+\* the single expected verdict: the three conditions of the statement and no guardian counted twice
+ExpectedVerdict(sigs, addrs) == IF Len(sigs) <= Short THEN VerifyStrict(sigs, addrs) ELSE VerifyStrictFast(sigs, addrs)
+Allowed(sigs, addrs) == {ExpectedVerdict(sigs, addrs)}
 
-ExplorerAllowed(sigs, addrs) ==
-    IF Len(sigs) = 0 \/ Len(sigs) < Q(Len(addrs)) THEN {FALSE} ELSE Allowed(sigs, addrs)
+\* the explorer's gate (Push): at least one signature, a quorum OF THE SET THE VAA NAMES (a.addrs), verification
+ExplorerAllowed(sigs, addrs) == {Len(sigs) > 0 /\ Len(sigs) >= Q(Len(addrs)) /\ ExpectedVerdict(sigs, addrs)}
 
 Str(b) == IF b THEN "true" ELSE "false"
 
